@@ -393,6 +393,30 @@ pub fn sites(tier: Tier) -> Vec<Site> {
             }));
     }
 
+    // 5-. sequences of TOKENS rather than bytes: what a scanner remembers from one marker to the next (the page in
+    // force, whether it is double-byte, a reset) is exercised by marker sequences longer than the byte strings above reach
+    {
+        let tokens: Vec<Vec<u8>> = vec![
+            b"^L".to_vec(), b"^J".to_vec(), b"^H".to_vec(), b"^S".to_vec(), b"^K".to_vec(), b"^E".to_vec(), b"^C".to_vec(), b"^G".to_vec(), b"^8".to_vec(), b"^".to_vec(),
+            vec![0x83], vec![0xe9], vec![0xa1], vec![0xf8], vec![0xff], b"A".to_vec(), b"8".to_vec(), b"J".to_vec(),
+        ];
+        let maxlen: u32 = if tier == Tier::Thorough { 6 } else { 5 };
+        let k = tokens.len() as u64;
+        let mut starts = vec![];
+        let mut count = 0u64;
+        for l in 1..=maxlen { starts.push(count); count += k.pow(l); }
+        let tt = t.clone();
+        sites.push(Site::new("marker-token-sequences", count,
+            &format!("all sequences of 1..={maxlen} tokens over {{10 markers incl. ^8 and a lone caret, 5 high bytes (a double-byte lead, Latin-1 letters that are lead bytes elsewhere, ff), A, 8, J}}: the decoder agrees with the reference decoder"),
+            move |i, acc| {
+                let l = starts.iter().rposition(|s| *s <= i).unwrap();
+                let mut j = i - starts[l];
+                let mut b = vec![];
+                for _ in 0..=l { b.extend_from_slice(&tokens[(j % k) as usize]); j /= k; }
+                judge_bytes(&tt, &b, i, "marker-token-sequences", acc);
+            }));
+    }
+
     // 5a. LONG byte strings: a unit repeated up to 260 bytes - "any number" of markers, resets, escaped
     // carets, double-byte characters with caret-like or lead-like trail bytes - behind 0..2 plain bytes
     {
